@@ -34,6 +34,12 @@ CLAIMS = {
          "as C01; pointer provenance observed with as_ptr()", "Lean 4 proof + pointer-level differential correspondence (T2)", "DESIGN.md §6 C08"),
  "C09": ("Lean theorems: the single reservation site logs min(count, bytes present) before decoding elements; string copies equal the payload present. Tie: counting global allocator around every decode: each request <= size_of(largest type) x bytes present, and the request log equals the model's event log",
          "as C01; allocator behaviour of Vec::with_capacity / collect / Box::new observed, not modelled beyond request sizes", "Lean 4 proof + allocation-log differential correspondence (T2, T4)", "DESIGN.md §6 C09"),
+ "C07": ("rustc is not modelled: a decidable Lean judgement outputOk (names resolve, parameter lists, field/payload types of every decode expression, variant arity, pattern typing, casts, identifier hygiene, no infinite type) stands in for it and is validated against rustc's verdict in both directions on a mixed batch every run; Lean theorems give the structural API (three impls per declaration under its own name, identical families, consistent parameters). Tie: every supported specification of the campaign is compiled with both derive lines together with Dump impls and a dispatcher that name every documented field, variant and trait impl. Partial: outputOk ~ rustc is empirical",
+         "trusted: Lean kernel, standard axioms; rustc/cargo; harness/backgen's reading of the documented shape", "Lean 4 proof (structural API) + rustc as oracle + judgement validated against rustc", "DESIGN.md §6 C07"),
+ "C11": ("Lean theorems: sorted-insert folds commute on distinct keys, hence the type index is invariant under permutation of the declarations; generic-index membership is permutation-invariant with no hypothesis (via C13). Tie: each declaration model printed under random layouts and orders gives token-identical output and identical Ast; 8 fresh processes byte-identical; repeated/interleaved calls on one Generator; model compared on every text (T1). Partial: the lift from `skip absorbs layout` to the token tree goes through the PEG interpreter, which is tied (T3), not proved",
+         "trusted: Lean kernel, standard axioms; BTreeMap/HashSet modelled as sorted list / membership; pest modelled", "Lean 4 proof (permutation invariance) + metamorphic differential correspondence (T1, T3)", "DESIGN.md §6 C11"),
+ "C15": ("Lean theorems: stdout and exit status of the CLI as a function of what the library does per argument (all ok: concatenation in argument order, exit 0; first failure: earlier outputs only, exit non-zero; no arguments: usage, non-zero). Tie: the binary built from the working tree on argument lists of 0-3 paths of every kind, stdout compared byte for byte with the library's own results and with the model",
+         "trusted: Lean kernel; std::env::args, read_to_string, println!, exit codes modelled (Fx/Cli.lean, tied by T5)", "Lean 4 proof + differential correspondence with the built binary (T5)", "DESIGN.md §6 C15"),
 }
 PENDING = "check under construction in this session (design in DESIGN.md); will be claimed, not a limit of the technique"
 
